@@ -34,7 +34,7 @@ REQUIRED = {'groups': 300, 'spellings': 1500, 'spelling.keyword': 300, 'spelling
             'kind.checked': 100, 'reach.map_args': 1000, 'reach.get_delegate': 1000, 'reach.translate_args': 1000,
             'pr.system.call_func': 100, 'pr.*': 150}
 
-NONDET = ('random', 'now', 'localtz')
+NONDET = ('now', 'localtz')
 OMIT = 'omit'
 
 
@@ -54,6 +54,14 @@ class Mon:
         for o in self.overloads:
             # ill-typed tuples are only meaningful where no other overload of the name can pick them up
             o.single_name = counts[o.name] == 1
+            # keyword names computed independently of what yaql published: explicit alias of the decorator,
+            # else the naming convention (trailing underscores stripped, snake_case -> camelCase)
+            orig = getattr(o.payload, '__yaql_function__', None)
+            for prm in o.params + o.kwonly:
+                explicit = None
+                if orig is not None and prm.key in orig.parameters:
+                    explicit = orig.parameters[prm.key].alias
+                prm.kwname = explicit or camel(prm.pyname)
         self.reach = hooks.Reach()
         self.reach.watch(yspecs.FunctionDefinition.map_args, 'map_args')
         self.reach.watch(yspecs.FunctionDefinition.get_delegate, 'get_delegate')
@@ -90,6 +98,13 @@ class Mon:
             if isinstance(e, yexc.ResolutionError):
                 name = name.replace('Function', '').replace('Method', '')
             return ('exc', name)
+
+
+def camel(pyname):
+    """documented convention: strip trailing underscores, snake_case -> camelCase"""
+    name = pyname.rstrip('_')
+    head, *rest = name.split('_')
+    return head + ''.join(w[:1].upper() + w[1:] for w in rest)
 
 
 def same(a, b):
@@ -153,7 +168,7 @@ def spellings(o, states, extra, form):
             kw = {}
             for i in range(k, n):
                 if st[i] is not OMIT:
-                    kw[o.params[i].name] = st[i]
+                    kw[o.params[i].kwname] = st[i]
             # params in [last_pos_explicit+1, k) that are OMIT are simply trailing-omitted
             if any(st[i] is not OMIT and i >= len(pos) and i < k for i in range(n)):
                 continue
@@ -213,12 +228,12 @@ def spellings(o, states, extra, form):
                         name = 'c%d' % len(vars_)
                         vars_[name] = a
                         return '$' + name
-                    kwtext = ', '.join('%s => %s' % (o.params[i].name, sp2(st[i])) for i in range(k, n) if st[i] is not OMIT)
+                    kwtext = ', '.join('%s => %s' % (o.params[i].kwname, sp2(st[i])) for i in range(k, n) if st[i] is not OMIT)
                     if form == 'method':
                         text = 'call(%s, [], {%s}, %s)' % (o.name, kwtext, sp2(st[0]))
                     else:
                         text = 'call(%s, [], {%s})' % (o.name, kwtext)
-                    if text not in seen and all(re.match(r'^[^\W\d]\w*$', o.params[i].name) for i in range(k, n)):
+                    if text not in seen and all(re.match(r'^[^\W\d]\w*$', o.params[i].kwname) for i in range(k, n)):
                         seen.add(text)
                         yield ['call()', 'keyword'], text, vars_
 
@@ -389,7 +404,7 @@ def run_shard(spec, rec):
             return
         idx = -1
         for o in mon.overloads:
-            if o.syntax[0] in ('var', 'internal') or o.name in NONDET:
+            if o.syntax[0] in ('var', 'internal') or o.name in NONDET or o.qual == 'math.random_':
                 continue
             idx += 1
             if idx % spec['parts'] != spec['part']:
